@@ -447,6 +447,8 @@ pub struct CycCfg {
     pub bad: bool,
     pub untracked_in_block: bool,
     pub yields: bool,
+    /// allow the saturation short-circuit (value-dependent but monotone control flow)
+    pub ret_if_top: bool,
 }
 
 impl CycCfg {
@@ -462,6 +464,7 @@ impl CycCfg {
             bad: false,
             untracked_in_block: false,
             yields: false,
+            ret_if_top: false,
         }
     }
 }
@@ -471,7 +474,8 @@ impl CycCfg {
 /// and may only flow through Or/And/Ret; branches and dynamic-call indices read untainted
 /// registers only, so the shape of the call graph depends on inputs alone.
 pub fn gen_cyclic(r: &mut Rng, c: &CycCfg) -> Program {
-    let m = 16u32;
+    // small lattices saturate (reach top) often, which the short-circuit op needs
+    let m = if c.ret_if_top { *r.pick(&[4u32, 4, 8, 16]) } else { 16u32 };
     let n_inputs = r.range(1, 3);
     let n_cells = if c.untracked_in_block { 1 } else { 0 };
     let nb = r.range(c.below.0, c.below.1);
@@ -528,6 +532,10 @@ pub fn gen_cyclic(r: &mut Rng, c: &CycCfg) -> Program {
                 }
                 89..=91 if c.untracked_in_block && in_block && !tainted[d as usize] => Op::Untracked { d, c: 0 },
                 92..=93 if c.yields => Op::Yield,
+                94..=97 if c.ret_if_top && in_block && tainted.iter().any(|t| *t) => {
+                    let ts: Vec<u8> = (0..NREG as u8).filter(|x| tainted[*x as usize]).collect();
+                    Op::RetIfTop { s: *r.pick(&ts) }
+                }
                 _ => Op::Const { d, c: r.below(m as u64) as u32 },
             };
             // a register overwritten by an untainted op stays conservatively tainted
